@@ -202,7 +202,7 @@ def finish(ctx, aud, mod):
         status = 1
         seen = set()
         for i, v in enumerate(unknown):
-            key = json.dumps(v['cls'], sort_keys=True) if v['cls'] else v['what']
+            key = json.dumps(v['cls'], sort_keys=True, default=str) if v['cls'] else v['what']
             if key in seen:
                 continue
             seen.add(key)
